@@ -80,4 +80,45 @@ PROPS = {
         "assumptions": ["expression objects are built by the package constructors (GEx.linked: every closure field holds the registry's closure for the node's name; ptileOptimized embeds a copy of the *ptile it wraps)",
                         "Validate() is not an observer: binaryExpr.DeAggregated is written but not read back (validate_not_preserved); no caller validates a decoded expression"],
     },
+
+    "C01": {
+        "lean": ["ZenoModel.Props.C01"],
+        "theorems": ["ingest_refines_spec", "period_of_point", "period_is_least", "counted_once", "clock_agrees", "points_counts_rows"],
+        "engines": [
+            {"name": "store", "n_quick": 240, "n_thorough": 24000, "n_search": 480, "shards": 8, "shards_thorough": 16,
+             "timeout_quick": 600, "timeout_thorough": 5400},
+        ],
+        "trusted_base": [TB_FLOAT, TB_TIME,
+                         "the theorems are about one column (one field of one key) of the row store (Model/Column.lean); the fan-out of a point to its key's row and fields (Model/Store.lean) is tied to the column model by the executable projection check of Model/StoreColumn.lean on every generated case, and to the code by the store engine (raw scans compared sequence by sequence through the verif hook VerifIterate)",
+                         "dimension expressions (WHERE, GROUP BY, IF conditions) are evaluated by the real goexpr in the harness and passed to the model",
+                         "the radix tree and the file format are finite maps in the model; emsort/snappy framing only sampled",
+                         "PERCENTILE fields and unary math are outside the theorems (noPtile)"],
+        "assumptions": ["timestamps are after Go's zero time and inside int64 nanoseconds", "flushes happen only where the script forces them (MinFlushLatency set high); timer-driven flushes are exercised by C03's schedule mode only"],
+    },
+    "C03": {
+        "lean": ["ZenoModel.Props.C03"],
+        "theorems": ["view_schedule_independent", "clock_schedule_independent", "view_flush", "disk_equals_mem_after_flush", "view_is_merge"],
+        "engines": [
+            {"name": "store", "n_quick": 240, "n_thorough": 24000, "n_search": 480, "shards": 8, "shards_thorough": 16,
+             "timeout_quick": 600, "timeout_thorough": 5400},
+        ],
+        "trusted_base": [TB_FLOAT, TB_TIME,
+                         "one-column theorems; store model tied to the column model by Model/StoreColumn.lean (executable projection check) and to the code by the store engine",
+                         "sorted flush changes only the order of rows in the file, which is not part of the model; emsort is trusted to return every chunk it was given",
+                         "clean restart between flushes is exercised by the crash engine of C02, not here"],
+        "assumptions": ["timestamps after Go's zero time; flushes only where forced"],
+    },
+    "C14": {
+        "lean": ["ZenoModel.Props.C14"],
+        "theorems": ["old_point_not_stored", "old_point_not_counted", "live_period_kept", "clock_monotone",
+                     "expired_gone_after_truncating_flush", "truncation_bound_tight", "truncating_flush_within_ten", "no_resurrection"],
+        "engines": [
+            {"name": "store", "mode": "retention", "n_quick": 96, "n_thorough": 9600, "n_search": 192, "shards": 8, "shards_thorough": 16,
+             "timeout_quick": 600, "timeout_thorough": 5400},
+        ],
+        "trusted_base": [TB_FLOAT, TB_TIME,
+                         "one-column theorems; store model tied to the column model by Model/StoreColumn.lean and to the code by the store engine (retention mode: retention/resolution ratios 1..6, 20-60 operations, >= 10 flushes)",
+                         "the query-window clause (grouped or time-ranged queries never return periods that ended more than one resolution before now - retention) is covered with C07's window theorems and the query engine"],
+        "assumptions": ["virtual clock (VirtualTime): now = maximum accepted timestamp, monotone"],
+    },
 }
